@@ -141,10 +141,7 @@ pub fn miri_tier(report: &Report, args: &Args, opts: &Options) {
     let mut risky_chosen: Vec<(usize, Vec<Op>)> = vec![];
     let mut two_owner: Vec<(usize, Vec<Op>)> = vec![];
     for h in candidates {
-        let out = match vcore::catch_panic(|| interp::run_history(h.0, &h.1, opts)) {
-            Ok(o) => o,
-            Err(_) => continue,
-        };
+        let out = crate::guard::guarded_run(h.0, &h.1, opts);
         if out.failure.is_some() {
             continue; // native failures are reported by the native part
         }
